@@ -1,6 +1,7 @@
 import HC.Prelude
 import HC.Extracted.Cli
 import HC.Extracted.Consts
+import HC.Extracted.ConfigSites
 /-!
 # Model of `hypercorn/config.py` (setters, loaders, bind parsing, response headers) and of the
 # command-line wiring of `hypercorn/__main__.py` (semantics of the *extracted* table).
@@ -55,9 +56,32 @@ def Store.set (st : Store) (k : String) (v : Val) : Store := (k, v) :: st.filter
 def fromMapping (kvs : List (String × Val)) : Store :=
   kvs.foldl (fun st (k, v) => match setattrNorm k v with | some (k', v') => st.set k' v' | none => st) []
 
-/-- `from_object`: every non-dunder, non-module attribute of the object goes through `from_mapping` -/
-def fromObject (attrs : List (String × Val)) : Store :=
-  fromMapping (attrs.filter (fun kv => !("__".isPrefixOf kv.1)))
+/-- what kind of Python object an attribute of the configuration object / module holds, as far as `from_object`'s filter
+    can tell: a module (`import os` in a configuration file), a class (`logger_class`), a function, or anything else -/
+inductive AttrKind | plain | module | cls | func
+deriving Repr, DecidableEq
+
+structure Attr where
+  name : String
+  kind : AttrKind
+  val : Val
+deriving Repr, DecidableEq
+
+def Attr.callable (a : Attr) : Bool := a.kind == .cls || a.kind == .func
+
+/-- one conjunct of the comprehension's `if` -/
+def clauseKeeps : ConfigSites.ObjClause → Attr → Bool
+  | .notModule, a => a.kind != .module
+  | .notDunder, a => !("__".isPrefixOf a.name)
+  | .notCallable, a => !a.callable
+
+/-- the filter of the current source: the conjunction of the *extracted* clauses -/
+def objKeeps (a : Attr) : Bool := ConfigSites.fromObjectFilter.all (fun c => clauseKeeps c a)
+
+/-- `from_object` (and through it `from_pyfile`, `-c file:`, `-c python:`): the attributes of the object that pass the
+    filter go through `from_mapping` under their own names -/
+def fromObject (attrs : List Attr) : Store :=
+  fromMapping ((attrs.filter objKeeps).map (fun a => (a.name, a.val)))
 
 /-! ## Bind strings (`Config._create_sockets`) -/
 
